@@ -39,6 +39,7 @@ func c17(c *Ctx) {
 	c13R1(c, "R9/C13.R1")
 	sCommitCoversConfig(c, "R9/S-COMMITCFG")
 	sLockDiscipline(c, "R10/S-LOCK", "verifyFuture", "followerReplication")
+	sAsyncNotifyBuffered(c, "R8/S-ASYNC")
 }
 
 func loopSelect(c *Ctx, fn *ssa.Function) *ssa.Select {
